@@ -20,6 +20,7 @@ RULE = (
     "region x depths {above surface, 0, each own-cell level depth, mid-levels, bottom, below bottom}; non-trivial = position whose eight "
     "surrounding node values are not all equal (interpolation matters); lattice points distinct by construction"
 )
+RULE += " Beyond the lattice (chosen scenarios, not enumerated): a grid 4200 cells wide with positions off the dyadic lattice; settled particles in the state."
 ASSUMPTIONS = [
     "steady fields (two identical frames) so that time interpolation (C03) cannot interfere",
     "dyadic field values: interpolation exact to 1e-12",
